@@ -15,7 +15,10 @@ def gen_case(rng, tier, wrap=False):
     adjust = rng.random() < 0.6
     queries = []
     all_days = []
-    for name in ['AAA', 'BBB', 'CCC'][:n_assets]:
+    names_ = ['AAA', 'BBB', 'CCC']
+    if rng.random() < 0.3:
+        names_ = rng.sample(['AAA', 'BRK.B', 'BRK.A', 'VOD.L', 'bf.b', 'CCC'], 3)      # tickers with a dot (share classes, exchange suffixes)
+    for name in names_[:n_assets]:
         n = rng.choice([1, 2, 3, 5, 10, 30]) if tier == 'quick' else rng.choice([1, 2, 3, 10, 60, 400])
         first = BASE + rng.randint(0, 20)
         days, d = [], first
